@@ -100,6 +100,8 @@ type c13Sched struct {
 	s     *VStream
 	stats *VStats
 	nops  int
+
+	ovfSlack map[*UdpTaskQueue]int
 }
 
 func (sc *c13Sched) hook(name string, args ...any) {
@@ -203,10 +205,27 @@ func (sc *c13Sched) qDigest(q *UdpTaskQueue) string {
 	case ovf == 1:
 		sc.stats.Inc("tq.digest.overflow=1")
 	}
+	// coverage of popOverflowTask's slice management (not compared: capacity is not observable behaviour)
+	q.enqueueMu.Lock()
+	capNow := cap(q.overflow)
+	q.enqueueMu.Unlock()
+	if ovf > UdpTaskQueueLength*2 {
+		sc.stats.Inc("tq.digest.overflow>256")
+	}
+	if prev, ok := sc.ovfSlack[q]; ok && prev > 96 && ovf > 0 && capNow == ovf {
+		sc.stats.Inc("tq.overflow.sliceShrunk")
+	}
+	if sc.ovfSlack == nil {
+		sc.ovfSlack = map[*UdpTaskQueue]int{}
+	}
+	sc.ovfSlack[q] = capNow - ovf
+	// the encoding of "claimed" (a negative sentinel today) is not part of the property
+	refs := fmt.Sprint(q.refs.Load())
 	if q.refs.Load() < 0 {
 		sc.stats.Inc("tq.digest.claimed")
+		refs = "claimed"
 	}
-	return fmt.Sprintf("refs=%d ch=%d ovf=%d mode=%s inmap=%s", q.refs.Load(), len(q.ch), ovf, b(mode), b(inmap))
+	return fmt.Sprintf("refs=%s ch=%d ovf=%d mode=%s inmap=%s", refs, len(q.ch), ovf, b(mode), b(inmap))
 }
 
 func (sc *c13Sched) chanID(ch chan UdpTask) int {
@@ -467,10 +486,13 @@ func (sc *c13Sched) drain(r *VRand) {
 	sc.logs()
 }
 
+// flow keys 2j and 2j+1 share the client source and differ only in the destination: the table must
+// be keyed by the whole flow key
 func c13FlowKey(i int) UdpFlowKey {
+	j := i / 2
 	return UdpFlowKey{
-		Src: netip.AddrPortFrom(netip.AddrFrom4([4]byte{10, 0, byte(i >> 8), byte(i)}), uint16(10000+i)),
-		Dst: netip.MustParseAddrPort("198.51.100.7:4433"),
+		Src: netip.AddrPortFrom(netip.AddrFrom4([4]byte{10, 0, byte(j >> 8), byte(j)}), uint16(10000+j)),
+		Dst: netip.AddrPortFrom(netip.AddrFrom4([4]byte{198, 51, 100, 7}), uint16(4433+i%2)),
 	}
 }
 
@@ -661,6 +683,52 @@ func (sc *c13Sched) random(r *VRand, nprod int, mode int, freezeUntil int) {
 	sc.drain(r)
 }
 
+// volume schedule: almost all tasks go to key 0 (a few to the other keys), convoys frozen until
+// `freeze` tasks are queued; then convoys and the remaining producers interleave
+func (sc *c13Sched) volume(r *VRand, nprod int, freeze int) {
+	nkeys := len(sc.keys)
+	spawned := 0
+	frozen := true
+	for step := 0; step < 60000; step++ {
+		acc := 0
+		for _, a := range sc.accepted {
+			acc += len(a)
+		}
+		if frozen && acc >= freeze {
+			frozen = false
+		}
+		var cand []*c13Thread
+		for _, th := range sc.parked() {
+			if th.isProd {
+				cand = append(cand, th)
+				if frozen {
+					cand = append(cand, th, th)
+				}
+			} else if !frozen {
+				cand = append(cand, th, th, th) // draining dominates, refills keep arriving
+			}
+		}
+		canSpawn := spawned < nprod
+		if len(cand) == 0 && !canSpawn {
+			break
+		}
+		if canSpawn && (len(cand) == 0 || r.Intn(len(cand)+2) < 2) {
+			k := 0
+			if nkeys > 1 && r.Chance(0.35) {
+				k = 1 + r.Intn(nkeys-1)
+				if frozen && len(sc.accepted[1]) < UdpTaskQueueLength+6 {
+					k = 1 // the sibling flow (same source, other destination) overflows too
+				}
+			}
+			sc.spawn(k)
+			spawned++
+			continue
+		}
+		sc.run(cand[r.Intn(len(cand))])
+	}
+	sc.drain(r)
+}
+
 func c13RunTq(t *testing.T, stats *VStats) {
 	s := VOpenStream("c13_tq")
 	defer s.Close()
@@ -675,6 +743,23 @@ func c13RunTq(t *testing.T, stats *VStats) {
 	c13TqSchedule(t, s, stats, 1, func(sc *c13Sched) { sc.script(r.Fork(), c13ScriptDelRace...) })
 	c13TqSchedule(t, s, stats, 2, func(sc *c13Sched) { sc.script(r.Fork(), c13ScriptCreateRace...) })
 	stats.Add("tq.schedules.scripted", 4)
+
+	// volume: several hundred tasks queued behind a frozen convoy (the overflow list grows past 256
+	// entries, its backing array past 512), then drained while more arrive: popOverflowTask's slice
+	// compaction runs with tasks still in the list; the second key overflows at the same time
+	nvol := 2
+	if VThorough() {
+		nvol = 16
+	}
+	nvol = VEnvInt("VERIF_C13_TQ_VOLUME", nvol)
+	for i := 0; i < nvol; i++ {
+		rr := r.Fork()
+		freeze := UdpTaskQueueLength + 2*UdpTaskQueueLength + 1 + rr.Intn(60)
+		nprod := freeze + 10 + rr.Intn(40)
+		nkeys := 1 + i%2*2 // 1 or 3 keys (keys 0 and 1 share the client source)
+		stats.Inc("tq.schedules.volume")
+		c13TqSchedule(t, s, stats, nkeys, func(sc *c13Sched) { sc.volume(rr, nprod, freeze) })
+	}
 
 	n := 400
 	if VThorough() {
